@@ -1,5 +1,5 @@
 """Contracts for jade/jobs/job_queue.py and the AsyncJobInterface it drives (C02, C04, C06)."""
-from pyvc.spec import record, contract, define, ghost
+from pyvc.spec import record, contract, define, ghost, CONTRACTS as _C
 
 F = "jade/jobs/job_queue.py"
 
@@ -383,3 +383,20 @@ contract("JobQueue.run", file=F, params=[("self", "Ref[JobQueue]"), ("jobs", "Li
          modifies=["self._outstanding_jobs", "self._queued_jobs", "self._num_jobs", "self._num_completed", "self._last_monitor_time", "ghost.runs",
                    "AsyncJob.g_done", "AsyncJob.return_code", "AsyncJob.g_launched", "AsyncJob.g_canceled", "AsyncJob.blocking", "AsyncJob.job_id",
                    "HpcStatusCollector._statuses", "HpcStatusCollector._last_poll_time", "ghost.last_status", "ghost.collected", "ghost.collected_failed"])
+
+# ---- classmethod glue (C06): JobQueue.run_jobs builds a queue of exactly the requested depth and runs the jobs through it ----------
+# The callers (JobRunner._run_jobs) use the assumed summary contract "JobQueue.run_jobs" (ghost run_jobs_depth); this verified view checks
+# the body: the constructor receives max_queue_depth as the depth (not the poll interval, not a default), the preconditions of `run` hold for
+# a freshly built queue, and everything is drained on return.
+contract("JobQueue.run_jobs_v", file=F, qualname="JobQueue.run_jobs",
+         params=[("jobs", "List[Ref[AsyncJob]]"), ("max_queue_depth", "int"), ("poll_interval", "int", "10"), ("monitor_func", "Opt[Opaque]", "None"),
+                 ("monitor_interval", "Opt[int]", "10")],
+         locals={"queue": "Ref[JobQueue]"},
+         requires=["max_queue_depth >= 0",
+                   "forall(i, range(len(jobs)), not jobs[i].g_canceled and jobs[i].g_launched == 0)",
+                   "forall(i, range(len(jobs)), forall(j, range(i), jobs[i].name != jobs[j].name and jobs[i] != jobs[j]))"],
+         exit_ensures=["queue._queue_depth == max_queue_depth", "empty(queue._outstanding_jobs) and len(queue._queued_jobs) == 0"],
+         raises={"ExecutionError": {"ensures": [], "frame": False}},
+         modifies=[m for m in _C["JobQueue.run"].modifies if not m.startswith("self.")] +
+                  ["JobQueue._queue_depth", "JobQueue._poll_interval", "JobQueue._outstanding_jobs", "JobQueue._queued_jobs", "JobQueue._num_jobs",
+                   "JobQueue._num_completed", "JobQueue._monitor_func", "JobQueue._last_monitor_time", "JobQueue._monitor_interval"])
